@@ -1,6 +1,7 @@
 import ZV.Proofs.C04
 import ZV.Proofs.C04Steps
 import ZV.Proofs.C04NC
+import ZV.Proofs.C04Val
 /-!
   C04 — certificate issuance round-trips through parsing: theorems about the model of `buildExtensions`
   and of the matching arms of `parseCertificate` (`ZV.Model.C04`), which T2 ties to the Go code by comparing,
@@ -272,6 +273,33 @@ theorem nc_present_iff (n : NCT) :
       · rintro ⟨⟨⟨rfl, rfl⟩, rfl⟩, rfl⟩; rfl
       · intro h; cases h; exact ⟨⟨⟨rfl, rfl⟩, rfl⟩, rfl⟩
   simp only [NCT.present, Bool.or_eq_false_iff, Bool.not_eq_false', hs]
+
+/-! ### validity and serial number -/
+
+/-- **Validity, to the second.**  For every NotBefore / NotAfter (any zone offset, any nanoseconds) whose year IN UTC
+    is 0..9999, `CreateCertificate`'s `validity{NotBefore.UTC(), NotAfter.UTC()}` marshals (UTCTime for 1950..2049,
+    GeneralizedTime otherwise, chosen per time) and the parser returns for each the SAME instant truncated to the second
+    (`unix` unchanged, nanoseconds 0) in UTC (offset 0). -/
+theorem validity_roundtrip (nb na : ZV.Time.GoTime)
+    (hb0 : 0 ≤ (toUTC nb).year) (hb1 : (toUTC nb).year ≤ 9999) (ha0 : 0 ≤ (toUTC na).year) (ha1 : (toUTC na).year ≤ 9999) :
+    ∃ der, buildValidity nb na = .ok der ∧ parseValidity der = .ok (⟨nb.unix, 0, 0⟩, ⟨na.unix, 0, 0⟩) :=
+  parseValidity_build nb na hb0 hb1 ha0 ha1
+
+/-- 2049-12-31T23:59:59.5+01:00 (UTCTime) .. 2050-01-01T00:00:00Z (GeneralizedTime) -/
+example : (0 : Int) ≤ (toUTC ⟨2524607999 - 3600, 3600, 500000000⟩).year ∧ (toUTC ⟨2524607999 - 3600, 3600, 500000000⟩).year ≤ 9999 ∧
+    (0 : Int) ≤ (toUTC ⟨2524608000, 0, 0⟩).year ∧ (toUTC ⟨2524608000, 0, 0⟩).year ≤ 9999 := by decide
+
+/-- outside the domain the builder fails (`CreateCertificate` returns an error): year 10000 -/
+example : buildValidity ⟨0, 0, 0⟩ ⟨253402300800, 0, 0⟩ = .err := by decide
+
+/-- **Serial number.**  For EVERY integer (zcrypto's CreateCertificate has no sign check: a negative serial is written
+    as it is; only a nil serial is an error — T3 line `valnil`) the INTEGER contents `marshalBigInt` writes are minimal
+    two's complement (`checkInteger`) and `parseBigInt` reads the same integer back; in particular for every
+    non-negative serial. -/
+theorem serial_roundtrip (v : Int) : parseSerial (encSerial v) = .ok v ∧ checkInteger (encSerial v) = true :=
+  parseSerial_encSerial v
+
+example : encSerial 128 = [0, 128] ∧ encSerial 127 = [127] ∧ encSerial (-129) = [0xff, 0x7f] ∧ encSerial 0 = [0] := by decide
 
 /-! ### the assembled extension list -/
 
